@@ -1,6 +1,7 @@
 CONSTANTS
   Comp = {"a", "b", "c"}
   MaxDepth = 2
+  OpenFlags = {0, 1, 2, 5, 6, 8, 9, 10, 13, 17, 18, 26, 41, 42}
   BatchMembers <- MCBatch
   MaxTape = 400
   Chunks = {"c1", "c2"}
